@@ -91,6 +91,14 @@ def vocabulary():
     add("try-catch-scope", P(g.try_(g.seq([g.asg(T("xx"), L(20)), g.throw(L(3))]), "ee", g.binop("+", I("ee"), I("xx")))), ["xx"])
     add("try-passes-break", P(g.for_do([g.cl_it(g.lv_id("aa"), g.lst([L(1), L(2)]))], g.try_(g.brk(0, L(5)), "ee", L(9)))), [])
     add("catch-var-leak", P(I("ee")), [])
+    # catch PATTERNS: a handler whose pattern does not match is skipped and the original value travels on
+    add("catch-lit-rethrow", P(g.tryp(g.tryp(g.throw(L(5)), g.lv_lit(6), L("six")), g.lv_lit(5), L("five"))), [])
+    add("catch-lit-outer-value", P(g.try_(g.tryp(g.throw(I("xx")), g.lv_lit(6), L("six")), "ee", g.binop("+", I("ee"), L(100)))), [])
+    add("catch-tuple-rethrow", P(g.tryp(g.tryp(g.throw(g.lst([L(1), I("xx")])), g.lv_tuple([g.lv_id("aa"), g.lv_id("bb"), g.lv_id("cc")]), I("aa")),
+                                        g.lv_tuple([g.lv_id("aa"), g.lv_id("bb")]), g.binop("+", I("aa"), I("bb")))), [])
+    add("catch-pattern-escapes", P(g.tryp(g.throw(I("xx")), g.lv_tuple([g.lv_lit(1), g.lv_id("bb")]), I("bb"))), [])
+    add("catch-pattern-in-loop", P(g.for_yield([g.cl_it(g.lv_id("aa"), g.lst([L(1), L(2), L(3)]))],
+                                               g.try_(g.tryp(g.throw(I("aa")), g.lv_lit(2), L("two")), "ee", I("ee")))), [])
     add("throw-escapes", g.seq([g.asg(T("xx"), L(30)), g.throw(L(1)), g.asg(T("xx"), L(31))]), ["xx"])
     add("short-circuit", P(g.or_(g.and_(g.seq([P(L("a")), L(0)]), g.seq([P(L("b")), L(1)])), g.coal(g.seq([P(L("c")), L(None)]), g.seq([P(L("d")), L(0)])))), [])
     add("if-no-scope", g.if_(g.binop("==", I("xx"), L(1)), g.decl("yy", L(77)), g.decl("yy", L(78))), ["yy"])
